@@ -1128,4 +1128,131 @@ theorem recombine_every_seed (nb len L : Nat) (hlen : len ≤ L) (swap : Bool) (
     ColCopy L rows (runSeed (recombine nb len L swap rows) seed) :=
   (recombine_copies_within_columns nb len L hlen swap rows hrect).of_runGen (recombine_wf nb len L swap rows) goGen goGen_intn_lt _
 
+
+/-! ### ShuffleSites -/
+
+private theorem swapCell_colPerm (L : Nat) (rows₀ rows : Rows) (h : ColPerm L rows₀ rows) (i j site : Nat) :
+    ColPerm L rows₀ (swapCell rows i j site) := by
+  unfold swapCell
+  split
+  · rename_i a b ha hb
+    split
+    · exact h
+    · rename_i hne
+      have hij : i ≠ j := by simpa using hne
+      have ma := List.mem_of_getElem? ha
+      have mb := List.mem_of_getElem? hb
+      have la := h.rect a ma
+      have lb := h.rect b mb
+      have hb' : (rows.set i (a.1, a.2.set site (b.2.getD site 0)))[j]? = some b := by
+        rw [List.getElem?_set_ne hij]; exact hb
+      refine ⟨?_, ?_, ?_⟩
+      · rw [map_fst_set _ j b _ hb', map_fst_set rows i a _ ha]; exact h.names
+      · intro s hs
+        rcases List.mem_or_eq_of_mem_set hs with hs | rfl
+        · rcases List.mem_or_eq_of_mem_set hs with hs | rfl
+          · exact h.rect s hs
+          · simpa using la
+        · simpa using lb
+      · intro k
+        refine List.Perm.trans ?_ (h.cols k)
+        rw [colK_set, colK_set]
+        have ca : (colK k rows)[i]? = some (a.2.getD k 0) := by unfold colK; simp [ha]
+        have cb : (colK k rows)[j]? = some (b.2.getD k 0) := by unfold colK; simp [hb]
+        by_cases hk : k = site
+        · subst hk
+          by_cases hkl : k < L
+          · have e1 : (a.2.set k (b.2.getD k 0)).getD k 0 = b.2.getD k 0 := by
+              simp [List.getD_eq_getElem?_getD, List.getElem?_set, la, hkl]
+            have e2 : (b.2.set k (a.2.getD k 0)).getD k 0 = a.2.getD k 0 := by
+              simp [List.getD_eq_getElem?_getD, List.getElem?_set, lb, hkl]
+            simp only [e1, e2]
+            have : ((colK k rows).set i (b.2.getD k 0)).set j (a.2.getD k 0) = swapAt (colK k rows) i j := by
+              unfold swapAt; rw [ca, cb]
+            rw [this]
+            exact swapAt_perm _ i j
+          · -- the column does not exist: both cells read 0 and nothing is written
+            have e1 : (a.2.set k (b.2.getD k 0)).getD k 0 = a.2.getD k 0 := by
+              simp [List.getD_eq_getElem?_getD, List.getElem?_set, la, hkl]
+            have e2 : (b.2.set k (a.2.getD k 0)).getD k 0 = b.2.getD k 0 := by
+              simp [List.getD_eq_getElem?_getD, List.getElem?_set, lb, hkl]
+            simp only [e1, e2]
+            have s1 : (colK k rows).set i (a.2.getD k 0) = colK k rows := by
+              have := (List.getElem?_eq_some_iff.mp ca).2
+              rw [← this]; exact List.set_getElem_self _
+            rw [s1]
+            have s2 : (colK k rows).set j (b.2.getD k 0) = colK k rows := by
+              have := (List.getElem?_eq_some_iff.mp cb).2
+              rw [← this]; exact List.set_getElem_self _
+            rw [s2]
+        · have e1 : (a.2.set site (b.2.getD site 0)).getD k 0 = a.2.getD k 0 := by
+            simp [List.getD_eq_getElem?_getD, List.getElem?_set, Ne.symm hk]
+          have e2 : (b.2.set site (a.2.getD site 0)).getD k 0 = b.2.getD k 0 := by
+            simp [List.getD_eq_getElem?_getD, List.getElem?_set, Ne.symm hk]
+          simp only [e1, e2]
+          have s1 : (colK k rows).set i (a.2.getD k 0) = colK k rows := by
+            have := (List.getElem?_eq_some_iff.mp ca).2
+            rw [← this]; exact List.set_getElem_self _
+          rw [s1]
+          have s2 : (colK k rows).set j (b.2.getD k 0) = colK k rows := by
+            have := (List.getElem?_eq_some_iff.mp cb).2
+            rw [← this]; exact List.set_getElem_self _
+          rw [s2]
+  · exact h
+
+private theorem shuffleColumn_allOut (L : Nat) (rows₀ : Rows) (site : Nat) : ∀ (n : Nat) (rows : Rows),
+    ColPerm L rows₀ rows → AllOut (fun out => ColPerm L rows₀ out) (shuffleColumn site n rows) := by
+  intro n
+  induction n using Nat.strongRecOn with
+  | _ n ih =>
+    intro rows h
+    match n with
+    | 0 => exact AllOut.pure _ h
+    | 1 => exact AllOut.pure _ h
+    | n + 2 =>
+      simp only [shuffleColumn]
+      exact AllOut.intn _ _ (fun r _ => ih (n + 1) (by omega) _ (swapCell_colPerm L rows₀ rows h _ _ _))
+
+private theorem shuffleColumns_allOut (L : Nat) (rows₀ : Rows) : ∀ (sites : List Nat) (rows : Rows),
+    ColPerm L rows₀ rows → AllOut (fun out => ColPerm L rows₀ out) (shuffleColumns sites rows) := by
+  intro sites
+  induction sites with
+  | nil => intro rows h; exact AllOut.pure _ h
+  | cons s rest ih =>
+    intro rows h
+    simp only [shuffleColumns]
+    exact AllOut.bind (shuffleColumn_allOut L rows₀ s _ rows h) (fun r hr => ih r hr)
+
+private theorem rogueColumn_allOut (L : Nat) (rows₀ : Rows) (tax : List Nat) (site : Nat) : ∀ (k r : Nat) (rows : Rows),
+    ColPerm L rows₀ rows → AllOut (fun out => ColPerm L rows₀ out) (rogueColumn tax site k r rows) := by
+  intro k
+  induction k with
+  | zero => intro r rows h; exact AllOut.pure _ h
+  | succ k ih =>
+    intro r rows h
+    simp only [rogueColumn]
+    exact AllOut.intn _ _ (fun j _ => ih _ _ (swapCell_colPerm L rows₀ rows h _ _ _))
+
+private theorem rogueColumns_allOut (L : Nat) (rows₀ : Rows) (tax : List Nat) (nbr : Nat) : ∀ (sites : List Nat) (rows : Rows),
+    ColPerm L rows₀ rows → AllOut (fun out => ColPerm L rows₀ out) (rogueColumns tax nbr sites rows) := by
+  intro sites
+  induction sites with
+  | nil => intro rows h; exact AllOut.pure _ h
+  | cons s rest ih =>
+    intro rows h
+    simp only [rogueColumns]
+    exact AllOut.bind (rogueColumn_allOut L rows₀ tax s _ _ rows h) (fun r hr => ih r hr)
+
+/-- **`ShuffleSites` permutes characters within columns only**: names, order and width are kept and every
+column keeps its multiset of characters — for every answer to every draw, with or without the extra
+"rogue" pass. -/
+theorem shuffleSites_permutes_within_columns (nbSites nbRogueSites nbRogueSeq : Nat) (rogueFirst : Bool) (rows : Rows)
+    (L : Nat) (hrect : ∀ s ∈ rows, s.2.length = L) :
+    AllOut (fun res => ColPerm L rows res.1) (shuffleSites nbSites nbRogueSites nbRogueSeq rogueFirst rows) := by
+  unfold shuffleSites
+  refine AllOut.bind (AllOut.trivial _) (fun pr _ => ?_)
+  obtain ⟨sp, tax⟩ := pr
+  refine AllOut.bind (shuffleColumns_allOut L rows _ rows (ColPerm.refl L rows hrect)) (fun r1 h1 => ?_)
+  exact AllOut.bind (rogueColumns_allOut L rows tax nbRogueSeq _ r1 h1) (fun r2 h2 => AllOut.pure _ h2)
+
 end Gv.Props.C10
